@@ -109,21 +109,19 @@ pub fn build(seed: u64, size: usize) -> Pool {
                 let reps = if scale >= 1.0 { 1 + (scale as usize - 1).min(3) } else { 1 };
                 for _ in 0..reps {
                     let (x, y) = slot_face_point(&mut rng, tri, reflected);
-                    let t = if rng.pct(70) { Target::Tl } else { Target::Inst(rng.below(3) as u8) };
-                    push(&mut ops, Op::Inverse { t, x: F::of(x), y: F::of(y), origin }, origin);
+                    // always on the calling thread's projection; sometimes also on an explicit instance
+                    push(&mut ops, Op::Inverse { t: Target::Tl, x: F::of(x), y: F::of(y), origin }, origin);
+                    if rng.pct(30) {
+                        push(&mut ops, Op::Inverse { t: Target::Inst(rng.below(3) as u8), x: F::of(x), y: F::of(y), origin }, origin);
+                    }
                     if let Ok(sp) = fresh.inverse(Face::new(x, y), origin) {
-                        let t = if rng.pct(70) { Target::Tl } else { Target::Inst(rng.below(3) as u8) };
-                        push(
-                            &mut ops,
-                            Op::Forward { t, theta: F::of(sp.theta().get()), phi: F::of(sp.phi().get()), origin },
-                            origin,
-                        );
+                        let (theta, phi) = (F::of(sp.theta().get()), F::of(sp.phi().get()));
+                        push(&mut ops, Op::Forward { t: Target::Tl, theta, phi, origin }, origin);
+                        if rng.pct(30) {
+                            push(&mut ops, Op::Forward { t: Target::Inst(rng.below(3) as u8), theta, phi, origin }, origin);
+                        }
                         if rng.pct(15) {
-                            push(
-                                &mut ops,
-                                Op::Forward { t: Target::Fresh, theta: F::of(sp.theta().get()), phi: F::of(sp.phi().get()), origin },
-                                origin,
-                            );
+                            push(&mut ops, Op::Forward { t: Target::Fresh, theta, phi, origin }, origin);
                         }
                     }
                     if rng.pct(15) {
@@ -431,6 +429,43 @@ pub fn build(seed: u64, size: usize) -> Pool {
             .collect();
         push(&mut ops, Op::SphPolyArea { pts: tri }, 255);
     }
+
+    // ---- low-level public functions
+    push(&mut ops, Op::Quaternions, 255);
+    let rc = |rng: &mut Rng| -> (F, F, F) {
+        let (lon, lat) = random_lonlat(rng);
+        let (t, p) = (lon.to_radians(), (90.0 - lat).to_radians());
+        (F::of(p.sin() * t.cos()), F::of(p.sin() * t.sin()), F::of(p.cos()))
+    };
+    for _ in 0..n(16) {
+        let c0 = (rng.uniform(-0.5, 0.5), rng.uniform(-0.5, 0.5));
+        let nv = if rng.pct(70) { 5 } else { 3 };
+        let r0 = rng.uniform(0.05, 0.4);
+        let verts: Vec<(F, F)> = (0..nv)
+            .map(|i| {
+                let a = (i as f64) * 2.0 * PI / nv as f64 + rng.uniform(-0.2, 0.2);
+                (F::of(c0.0 + r0 * a.cos()), F::of(c0.1 + r0 * a.sin()))
+            })
+            .collect();
+        push(&mut ops, Op::PentagonShapeOps { verts: verts.clone(), px: F::of(c0.0 + rng.uniform(-0.3, 0.3)), py: F::of(c0.1 + rng.uniform(-0.3, 0.3)), k: F::of(rng.uniform(0.1, 4.0)) }, 255);
+        push(&mut ops, Op::VectorOps { a: rc(&mut rng), b: rc(&mut rng), c: rc(&mut rng), t: F::of(rng.unit()) }, 255);
+        push(&mut ops, Op::SphTriShape { pts: vec![rc(&mut rng), rc(&mut rng), rc(&mut rng)], n: rng.range(1, 6) as u32, closed: rng.pct(50), t: F::of(rng.uniform(0.0, 3.0)) }, 255);
+        push(&mut ops, Op::CoordXform { x: F::of(rng.uniform(-2.0, 2.0)), y: F::of(rng.uniform(-2.0, 2.0)), z: F::of(rng.uniform(-2.0, 2.0)) }, 255);
+        push(&mut ops, Op::Barycentric { p: (F::of(rng.uniform(-1.0, 1.0)), F::of(rng.uniform(-1.0, 1.0))), tri: verts.iter().take(3).copied().collect() }, 255);
+        push(&mut ops, Op::Gnomonic { a: F::of(rng.uniform(-3.0, 3.0)), b: F::of(rng.uniform(0.0, 1.4)) }, 255);
+        let res = rng.range(1, 12) as u32;
+        push(
+            &mut ops,
+            Op::HilbertLow { n: rng.below(4) as u8, f0: rng.pct(50), f1: rng.pct(50), x: F::of(rng.uniform(0.0, 8.0)), y: F::of(rng.uniform(0.0, 8.0)), s: rng.next_u64() & ((1u64 << (2 * res)) - 1), res, invert_j: rng.pct(50), flip_ij: rng.pct(50) },
+            255,
+        );
+        let &(c, g) = rng.pick(&base_cells);
+        push(&mut ops, Op::SerialLow { cell: c, res: a5::get_resolution(c), res2: a5::get_resolution(c) + rng.range(0, 5) as i32 }, g);
+        let (lon, lat) = random_lonlat(&mut rng);
+        push(&mut ops, Op::OriginLow { theta: F::of((lon + 93.0).to_radians()), phi: F::of((90.0 - lat).to_radians()), origin: rng.below(12) as u8 }, 255);
+    }
+    push_poison(&mut ops, Op::SphTriShape { pts: vec![rc(&mut rng), rc(&mut rng)], n: 2, closed: true, t: F::of(0.5) }, 255, "vertex_count");
+    push_poison(&mut ops, Op::VectorOps { a: (F::of(0.0), F::of(0.0), F::of(0.0)), b: (F::of(f64::NAN), F::of(0.0), F::of(1.0)), c: rc(&mut rng), t: F::of(2.0) }, 255, "coordinate_out_of_range");
 
     // mark the obviously cheap ones for long-haul repetition
     for p in ops.iter_mut() {
